@@ -14,7 +14,7 @@ OPS = ["get", "getnext", "bulkget", "set", "multiget", "walk", "multiset", "bulk
 
 def make_user(sc):
     auth = (sc["hash"], bytes(sc["authpw"])) if sc["level"] != "noauth" else None
-    priv = ("verifstream", bytes(sc["privpw"])) if sc["level"] == "authpriv" else None
+    priv = (sc.get("privmethod", "verifstream"), bytes(sc["privpw"])) if sc["level"] == "authpriv" else None
     return User(sc.get("user", "usr").encode(), auth, priv)
 
 
